@@ -1918,6 +1918,15 @@ class Method:
         )
         answer.extend(types)
 
+        # A flattened map field is annotated with its value type, which may
+        # live in a module that nothing else in the service refers to.
+        if not recursive:
+            for f in self.flattened_fields.values():
+                if f.map:
+                    value = f.type.fields["value"]
+                    if value.message or value.enum:
+                        answer.append(value.type)
+
         if not self.void:
             answer.append(self.client_output)
             answer.extend(self.client_output.field_types)
